@@ -160,9 +160,9 @@ Proof. unfold toward. rewrite andb_true_iff, Z.leb_le, Z.leb_le. reflexivity. Qe
 
 (* ---------- client wiring (rpc/internal/client.go) ---------- *)
 (* the balancer registers under the name the client's service config asks for, and that is "p2c_ewma" *)
-Lemma link_p2c_name : C14_Gen.Name = "p2c_ewma"%string /\
+Lemma link_p2c_name : C14_Gen.Name = p2c_name /\ p2c_name = "p2c_ewma"%string /\
   svc_json C14_Gen.Name = "{""loadBalancingPolicy"":""p2c_ewma""}"%string.
-Proof. split; reflexivity. Qed.
+Proof. repeat split; reflexivity. Qed.
 
 (* NewClient: Sprintf the service config, wrap it with WithDialOption, PREPEND it (append([]ClientOption{..}, opts...)), dial *)
 Lemma link_newclient_calls : C14_Gen.newclient_calls =
